@@ -2,7 +2,7 @@ SPECIFICATION Spec
 CONSTANTS
   Apps <- AllApps
   Catching <- Both
-  Verbs <- Verbs2
+  Verbs <- Verbs1
   MCLines <- LinesAll
   Pres <- PresAll
   MaxListeners = 1
@@ -11,6 +11,8 @@ CONSTANTS
   OutValues <- ValuesAll
   OutKinds <- KindsAll
   MCScopes <- ScopesTwo
+  MCRoutes <- RoutesOne
+  MCExits <- ExitsNo
   Emitting = FALSE
 INVARIANT PContained
 INVARIANT PZeroIff
